@@ -133,6 +133,9 @@ fn emit_tables_f<T: Sc>(out: &mut Out, recipe: &Recipe, alpha: &[T], fail: Optio
     if crate::state::svd_breaks(&phi, w) {
         out.line(" svdq nonfinite");
     }
+    // measured accuracy of the library's SVD routine on this step's matrix (the oracle's backward error
+    // enters the driver's perturbation bounds; see state::emit_svdq)
+    crate::state::emit_svdq(out, recipe, alpha, w);
     out.line(&format!(" phi ok {}", mat_str(&phi)));
     for k in 0..recipe.p() {
         match fail {
